@@ -25,6 +25,10 @@ GEN_AUDIT += ["Dashu.Audit.C05Link"]
 # round 5: FBig::from_parts_const's own normaliser mirrored and proved = Repr::normalize
 GEN_PROPS += ["Dashu.Props.C05Const"]
 GEN_AUDIT += ["Dashu.Audit.C05Const"]
+# round 6: the specification order of float_cmp IS the order of the rational values signif*B^exp (Proofs/Int/FloatValue.lean,
+# Mathlib ℚ), infinities at the ends; transitivity / swap of the code's comparison on the invariant's domain
+GEN_PROPS += ["Dashu.Props.C05Order"]
+GEN_AUDIT += ["Dashu.Audit.C05Order"]
 JOBS = 12
 READY = True
 
@@ -156,27 +160,6 @@ def _fparts(B, s, e, p):
     while v % B == 0:
         v //= B; e += 1
     return (v, e, prec, ndigits(abs(v), B))
-
-
-def kf_float_cmp_overflow(op, args, impl):
-    """the input class of the finding `float/src/cmp.rs repr_cmp_same_base: exponent + precision / exponent + digits_ub in
-    isize`: two finite non-zero operands of equal sign (cases 4 and 5 are reached) one of which has a precision >= 2^63
-    (`as isize` goes negative) or `exponent + max(precision, digits + 1) > isize::MAX` (the sum leaves isize)"""
-    if op == "f.cmp":
-        B = int(args[0])
-        a = _fparts(B, args[1], int(args[2][2:]), int(args[3][2:]))
-        b = _fparts(B, args[4], int(args[5][2:]), int(args[6][2:]))
-        if a is None or b is None or (a[0] < 0) != (b[0] < 0):
-            return False
-        if impl.startswith("panic") and not ("float/src/cmp.rs" in impl and "with_overflow" in impl):
-            return False
-        return any(x[2] >= 1 << 63 or x[1] + max(x[2], x[3] + 1) > ISZ_MAX for x in (a, b))
-    if op == "f.norm":
-        a = _fparts(int(args[0][2:]), args[1], int(args[2][2:]), 0)
-        # (the harness also compares the FBig built by from_parts, whose precision is the digit count of the significand as given)
-        return (a is not None and a[1] + max(a[2], a[3] + 1) > ISZ_MAX and "float/src/cmp.rs" in impl
-                and "attempt_to_add_with_overflow" in impl)
-    return False
 
 
 def generate(rng, tier):
@@ -486,8 +469,32 @@ def generate(rng, tier):
         pw = rng.sample(pw, 260)
     for B, sg in pw:
         yield Case("f.norm", [dec(B), hx(-sg if rng.random() < 0.3 else sg), dec(rng.choice([0, 0, -3, 17]))])
+    # ---- round 6: `FBig::<R,2>::try_from(f32/f64)` / `Repr::<2>::try_from` as producers (history instruction `fromFloat`): bit
+    #      patterns from the branch conditions of `decode` (exponent field 0 = subnormal/zero, all ones = inf/NaN, else normal)
+    #      and of `Repr::normalize`'s `B == 2` arm (trailing zero bits of the mantissa: every count), both signs
+    core, ff = [], []
+    for t, mb, eb in ((32, 23, 8), (64, 52, 11)):
+        emax = (1 << eb) - 1
+        bias = emax >> 1
+        def pat(sg, ef, mant):
+            return (t, (sg << (t - 1)) | (ef << mb) | mant)
+        for sg in (0, 1):
+            core += [pat(sg, 0, 0), pat(sg, 0, 1), pat(sg, 0, (1 << mb) - 1), pat(sg, 1, 0), pat(sg, bias, 0),
+                     pat(sg, emax - 1, (1 << mb) - 1), pat(sg, emax, 0), pat(sg, emax, 1), pat(sg, emax, 1 << (mb - 1))]
+            for ef in [0, 1, 2, bias - 1, bias, bias + 1, bias + mb, bias + mb + 1, emax - 1, emax] + [rng.randrange(1, emax) for _ in range(3)]:
+                mants = [0, 1, 2, 3, (1 << mb) - 1, (1 << mb) - 2, 1 << (mb - 1)]
+                for k in range(mb):
+                    mants += [1 << k, (1 << k) - 1 if k else 0, ((1 << mb) - 1) ^ ((1 << k) - 1), rng.randrange(1 << mb) >> k << k]
+                for mant in mants:
+                    ff.append(pat(sg, ef, mant))
+        for _ in range(100 if quick else 20000):
+            ff.append((t, rng.randrange(1 << t)))
+    if quick:
+        ff = rng.sample(ff, 420)
+    for t, bits in core + ff:
+        yield Case("f.from", [dec(t), hx(bits)])
     # ---- round 5 (E1): comparison of floats with EXTREME exponents and precisions — exponents within a few digit counts of
-    #      isize::MAX (the sums `exp + precision`, `exp + digits_ub` of the shortcuts leave isize: known finding), just below
+    #      isize::MAX (the sums `exp + precision`, `exp + digits_ub` of the shortcuts leave isize: saturating since ee43486), just below
     #      that threshold (must be exact), at isize::MIN, around 2^31 / 2^32; precisions 2^31, 2^32 (+-k), 2^63 -+ k,
     #      usize::MAX - k.  The two exponents stay within 2*digits+2 of each other (the exact comparison is cheap).
     for _ in range(320 if quick else 12000):
@@ -753,7 +760,7 @@ RULE = ("integers: values of exactly 0..6,9 (thorough ..100) words in the C09 bi
         "one rational built by 16 / 15 routes (trailing-zero significands, precision changes incl. unlimited, +0, *1, shifts, "
         "parsing, integer conversion, rounding-mode change; non-reduced and signed parts, arithmetic round trips, parsing, "
         "Relaxed->canonicalize) whose representations must be the normalised / reduced one and pairwise ==, cmp Equal (and, for "
-        "RBig, hash-identical). `f.subcmp`: differences of equal-signed operands that keep the spare (p+1-st) digit, compared with values at the exponent thresholds of the precision shortcut and with neighbours; `f.viabase`: floats of base 16/8/4/9/27/100 with significands 2^j*odd, odd, multiples of the base, zero, converted exactly to the root base (with_base_and_precision, with_base, to_binary) — normalised, ==, cmp Equal to from_parts in the target base; every float the harness receives back is checked for normalisation (`!unnormalized` marker). `f.ctx`: one value `s*B^e` of ANY digit count rounded ONCE to p digits through every single-rounding route — owning (with_precision, Context::sub(0,-x), convert_int) and borrowing (Context::add(&0,&x), add(&x,&0), sub(&x,&0), powi(x,1), powf(x,1)) — all results must be the representation the model computes (reprRound), normalised, pairwise ==, cmp Equal, same numeric hash; then Context::mul/sqr/cubic/add/sub/div/inv/sqrt/powi(2,5,-3)/exp/ln on operands LONGER than the precision (the by-reference pre-shrink runs): normalised, <= p+1 digits, ==/cmp Equal to the rebuilt copy; classes: unlimited precision, digits <= p, kept digits ending in zero digits, all-max kept digits (carry), ties / tie+-1 / tiny / all-max discarded part, 11 (base, mode) pairs incl. base 3, second operand around the 2p / 3p / rhs.digits+p thresholds. `f.cmp` also compares through `Ord/PartialEq for Repr<B>` (no precisions). `c.hist` instruction set extended by gcd, sqrt, nth_root (n in 0..130), from_str_radix (radix 2..36, sign, underscores, leading zeros, malformed text ending the history), from_le/be_bytes (UBig and two-complement IBig; zero / sign-extension padding across word boundaries; top byte exactly 0x80; random byte strings) and byte round trips. `f.zero`: exact zeros of every origin (literal, default, from_parts(0,k), a-a, 0*a, -0, parsed; unlimited and limited precision; bases 2/10/16/3, five rounding modes) through every FBig producer in by-value / by-reference / compound-assignment form (shifts, mul, add/sub of zero, neg, abs, div, sqr, cubic, sqrt, powi, trunc..round, clone_from, with_precision/rounding/base) — each result must be significand 0 exponent 0, ==/cmp Equal to ZERO both ways, strictly between -1 and 1, same numeric hash feed. `c.hist` str instruction (round 5, E2): every byte 0x00..0x7f (and 4 multi-byte characters) substituted or inserted at the first / middle / last position of a valid text, radix 2..36. `c.ext` (round 5, E1): IBig/UBig >> n (by value and by reference), clear_high_bits, split_bits, clear_bit, nth_root(n >= bit_len) for n = 0, 1, W-1..W+1, 2W-1..2W+1, around the bit length, 2^31, 2^32 (+-k), 2^63, usize::MAX-k (k <= 130) on values of 0..6 words, both signs: canonical layout (repr_info), both ownership forms equal, ==/cmp/hash equal to the value parsed from text. `f.norm` (round 5): Repr::new vs from_parts vs from_parts_const on k*B^j for 28 bases (2; powers of two with 2..63 bits per digit and trailing zero bits of every residue; one-word bases up to 2^64-1 through UBig::remove with multiplicities 0..300), cofactors sharing a proper divisor with the base, both signs, zero, exponents 0, +-1, +-2^31, +-2^32 (+-k), isize::MIN, and result exponent isize::MAX - t for t around the digit count. `f.cmp` extreme class (round 5, E1): exponents within a few digit counts of isize::MAX / at isize::MIN / around +-2^31, +-2^32, precisions 2^31, 2^32 +- k, 2^63 -+ k, usize::MAX - k, equal values / neighbours / rescaled / independent, all sign pairs. Non-trivial := an integer operand above one word, "
+        "RBig, hash-identical). `f.subcmp`: differences of equal-signed operands that keep the spare (p+1-st) digit, compared with values at the exponent thresholds of the precision shortcut and with neighbours; `f.viabase`: floats of base 16/8/4/9/27/100 with significands 2^j*odd, odd, multiples of the base, zero, converted exactly to the root base (with_base_and_precision, with_base, to_binary) — normalised, ==, cmp Equal to from_parts in the target base; every float the harness receives back is checked for normalisation (`!unnormalized` marker). `f.ctx`: one value `s*B^e` of ANY digit count rounded ONCE to p digits through every single-rounding route — owning (with_precision, Context::sub(0,-x), convert_int) and borrowing (Context::add(&0,&x), add(&x,&0), sub(&x,&0), powi(x,1), powf(x,1)) — all results must be the representation the model computes (reprRound), normalised, pairwise ==, cmp Equal, same numeric hash; then Context::mul/sqr/cubic/add/sub/div/inv/sqrt/powi(2,5,-3)/exp/ln on operands LONGER than the precision (the by-reference pre-shrink runs): normalised, <= p+1 digits, ==/cmp Equal to the rebuilt copy; classes: unlimited precision, digits <= p, kept digits ending in zero digits, all-max kept digits (carry), ties / tie+-1 / tiny / all-max discarded part, 11 (base, mode) pairs incl. base 3, second operand around the 2p / 3p / rhs.digits+p thresholds. `f.cmp` also compares through `Ord/PartialEq for Repr<B>` (no precisions). `c.hist` instruction set extended by gcd, sqrt, nth_root (n in 0..130), from_str_radix (radix 2..36, sign, underscores, leading zeros, malformed text ending the history), from_le/be_bytes (UBig and two-complement IBig; zero / sign-extension padding across word boundaries; top byte exactly 0x80; random byte strings) and byte round trips. `f.zero`: exact zeros of every origin (literal, default, from_parts(0,k), a-a, 0*a, -0, parsed; unlimited and limited precision; bases 2/10/16/3, five rounding modes) through every FBig producer in by-value / by-reference / compound-assignment form (shifts, mul, add/sub of zero, neg, abs, div, sqr, cubic, sqrt, powi, trunc..round, clone_from, with_precision/rounding/base) — each result must be significand 0 exponent 0, ==/cmp Equal to ZERO both ways, strictly between -1 and 1, same numeric hash feed. `c.hist` str instruction (round 5, E2): every byte 0x00..0x7f (and 4 multi-byte characters) substituted or inserted at the first / middle / last position of a valid text, radix 2..36. `c.ext` (round 5, E1): IBig/UBig >> n (by value and by reference), clear_high_bits, split_bits, clear_bit, nth_root(n >= bit_len) for n = 0, 1, W-1..W+1, 2W-1..2W+1, around the bit length, 2^31, 2^32 (+-k), 2^63, usize::MAX-k (k <= 130) on values of 0..6 words, both signs: canonical layout (repr_info), both ownership forms equal, ==/cmp/hash equal to the value parsed from text. `f.norm` (round 5): Repr::new vs from_parts vs from_parts_const on k*B^j for 28 bases (2; powers of two with 2..63 bits per digit and trailing zero bits of every residue; one-word bases up to 2^64-1 through UBig::remove with multiplicities 0..300), cofactors sharing a proper divisor with the base, both signs, zero, exponents 0, +-1, +-2^31, +-2^32 (+-k), isize::MIN, and result exponent isize::MAX - t for t around the digit count. `f.cmp` extreme class (round 5, E1): exponents within a few digit counts of isize::MAX / at isize::MIN / around +-2^31, +-2^32, precisions 2^31, 2^32 +- k, 2^63 -+ k, usize::MAX - k, equal values / neighbours / rescaled / independent, all sign pairs. `f.from` (round 6): f32 / f64 bit patterns through FBig::try_from (two rounding-mode types) and Repr::try_from — exponent field 0 (zero, subnormals), 1, 2, around the bias, bias+mantissa bits, largest finite, all ones (infinities, NaNs); mantissas 0, 1, 2^k, 2^k-1, high k bits set, random with k trailing zero bits for EVERY k, all ones; both signs: normalised, precision = bit length of the mantissa (0 for +-0.0), digits <= precision+1, ==/cmp Equal to from_parts of the same pair, infinities ==/cmp Equal to the constants and above/below a finite value. Non-trivial := an integer operand above one word, "
         "every float/rational case; distinct := distinct (op,args) lines.")
 
 REFINED = [
@@ -790,6 +797,14 @@ REFINED = [
     "round 5: rational histories — ==, cmp, Hash of ANY two registers produced by any finite program of C04's instruction set "
     "(RBig and Relaxed) follow the values: C04's history invariant composed with ratio_cmp / relaxed_eq / rbig_eq / "
     "rbig_hash_follows_value (Props/C05Link.rational_history_eq_cmp_hash)",
+    "round 6: repr_cmp_same_base follows /repo ee43486 (precisions clamped to isize::MAX, saturating sums): regenerated text, hand "
+    "model and theorems carry the clamp; the translator's reading of saturating_add proved sound (saturating_add_reading_sound)",
+    "round 6: float cmp IS the total order of the rational values signif*B^exp (Props/C05Order: float_spec_is_value_order, "
+    "float_spec_infinities_at_ends, float_cmp_is_value_order, float_cmp_trans, float_cmp_swap; float_history_value_order: for any two "
+    "registers of any float history cmp decides <,=,> of the ℚ values and == is equality of the values; infinities included: one order "
+    "-inf = ⊥ < ℚ < ⊤ = +inf (FRepr.xval; float_spec_is_extended_value_order, float_spec_trans, float_cmp_is_extended_value_order))",
+    "round 6: TryFrom<f32/f64> for FBig<R,2> / Repr<2> is an instruction of the float history (`fromFloat`: Repr::new(man, exp), "
+    "precision = bit length of the mantissa, 0 for +-0.0), executed by the driver op `f.from` on C06's mirrored decode",
 ]
 FRONTIER = [
     "history theorem covers: const, fromWords (ANY raw word buffer -> from_buffer + sign: from_words, chunk decoders, "
@@ -802,20 +817,23 @@ FRONTIER = [
     "the VALUE with the owning property's mirrored kernels and assemble the representation by ofNat/sOfInt (= from_buffer/"
     "from_word/from_dword + with_sign); inside sqrt the multi-word kernel is C12's contract-level `sqrtRemKernelFrontier`",
     "float producers: digits <= precision+1 is proved for repr_round(_ref)/with_precision, add, sub, mul, sqr, cubic, repr_div, "
-    "Context::div (given sound digits_ub/digits_lb estimates), inv, sqrt, powi, convert_int, from_parts, parser assembly; NOT "
+    "Context::div (given sound digits_ub/digits_lb estimates), inv, sqrt, powi, convert_int, from_parts, parser assembly, "
+    "TryFrom<f32/f64> (round 6: history instruction `fromFloat`, executed by the driver op `f.from` on C06's mirrored `decode`); NOT "
     "modelled here: exp/ln/powf (their last step is repr_round / with_precision — C11 mirrors the bodies; checked on the real "
-    "code by `f.ctx`/`f.fits`), with_base (C08; fix 02e179b), TryFrom<f32/f64> (precision = mantissa bits, C06)",
+    "code by `f.ctx`/`f.fits`), with_base (C08; fix 02e179b)",
     "FBig::from_parts_const (own normaliser + precision-inference loop on a double word) is hand-mirrored "
     "(Model/Int/FloatConst.lean; a const-fn loop over DoubleWord is outside the typed translator's subset: Tie B only, `f.norm` "
     "prints the inferred precision); proved: its representation = Repr::normalize for every base and double word "
     "(from_parts_const_normalized) and |significand| < B^(precision+1) for the precision it infers, any min_precision "
     "(from_parts_const_fits; the real loop returns precision = digits - 1 when B^digits >= 2^128, e.g. 2*10^38+1 -> 38 — inside "
     "the one-spare-digit slack of float_cmp, contrary to its doc comment `the lowest k such that significand <= base^k`)",
-    "exponent / precision arithmetic in isize/usize: every float theorem is over unbounded Int exponents and Nat precisions. The "
-    "real repr_cmp_same_base overflows (`exp + precision`, `exp + digits_ub`, `precision as isize`) when exponent + "
-    "max(precision, digits_ub) > isize::MAX or precision >= 2^63 — KNOWN FINDING (round 5; debug: panic, release: equal values "
-    "compare Greater); `Repr::normalize`'s own `exponent += shift` overflow (exponent within `shift` of isize::MAX: value not "
-    "representable) is not driven",
+    "exponent / precision arithmetic in isize/usize: every float theorem is over unbounded Int exponents and Nat precisions. "
+    "repr_cmp_same_base's sums were repaired in /repo ee43486 (saturating, precision clamped to isize::MAX; the clamp is in the "
+    "regenerated text, in the hand model `cmpCase4` and in the hypothesis of float_cmp: `|signif| < B^(min p isize::MAX + 1)`; "
+    "float_cmp_of_small_precision / float_history_cmp_small give the unclamped form for p <= isize::MAX); `saturating_add` is read "
+    "as the exact Int sum: the same decision for every `x > y.saturating_add(n)` with x, y in isize and n >= 0 "
+    "(Props/GenFloatCmp.saturating_add_reading_sound; also driven by the f.cmp extreme classes); "
+    "`Repr::normalize`'s own `exponent += shift` overflow (exponent within `shift` of isize::MAX: value not representable) is not driven",
     "c.hist shift / bit-index arguments are driven up to ~3000 only: the spec side of the history interpreter computes `a / 2^n` "
     "literally (n >= 2^32 is not executable); counts up to usize::MAX on the same producers are driven by C09's ops (model "
     "robust for every usize) and the producer theorems (`producers_canonical`, history theorems) hold for every Nat count",
@@ -824,8 +842,12 @@ FRONTIER = [
     "digits <= precision+1, which float_history gives for the modelled producers), float_eq_iff_cmp_equal, "
     "float_cmp_equal_iff_eq; FBig implements no Hash; RBig/Relaxed: ratio_cmp, relaxed_eq, rbig_eq, rbig_hash_follows_value, "
     "ratio_cmp_equal_iff_eq + C05Link.rational_history_eq_cmp_hash. Clauses WITHOUT a theorem: cmp of floats produced by "
-    "exp/ln/powf/with_base/TryFrom<f32/f64> (producers not in float_history: sampled by f.ctx / f.viabase / f.basecmp only); "
-    "transitivity/totality of float cmp is a corollary of float_cmp only on the invariant's domain; `PartialOrd` consistency "
+    "exp/ln/powf/with_base (producers not in float_history: sampled by f.ctx / f.viabase / f.basecmp only); "
+    "`cmp is the total order of the values` for floats: specFCmp = order of the rational values signif*B^exp in ℚ with the "
+    "infinities at the ends (Props/C05Order.float_spec_is_value_order, float_spec_infinities_at_ends; as ONE order on ⊥ < ℚ < ⊤: "
+    "float_spec_is_extended_value_order, float_spec_trans, float_cmp_is_extended_value_order), the code's comparison "
+    "decides <,=,> of the values and is transitive and swap-symmetric (float_cmp_is_value_order, float_cmp_trans, float_cmp_swap) "
+    "— on the invariant's domain (finite operands with digits <= min(p, isize::MAX)+1), not outside it; `PartialOrd` consistency "
     "(`partial_cmp == Some(cmp)`, `<` etc.) is checked by the harness, derived impls not modelled",
     "AbsOrd/AbsEq and cross-type comparisons are C14",
 ]
@@ -843,8 +865,11 @@ EXPLANATION = ("Theorems: integers — cmp of canonical values = order of values
 ASSUMPTIONS = ["derive(Hash)/slice hashing of core feed (isize discriminant, usize length prefix, word bytes) as observed on this host",
                "the f32 estimate `digits_ub` of the real code is an upper bound of the digit count (the model takes the estimator as a "
                "parameter with exactly this hypothesis; the driver instantiates it with the exact count)",
-               "usize/isize arithmetic on exponents and precisions does not overflow (Int in the model) — FALSE for the real cmp when "
-               "exponent + max(precision, digits_ub) > isize::MAX or precision >= 2^63: recorded as a known finding, driven by f.cmp / f.norm"]
+               "exponents are unbounded Int and precisions unbounded Nat in the model; the real comparison (since /repo ee43486) clamps each "
+               "precision to isize::MAX and uses saturating sums, which over Int is the exact sum of the clamped precision — the model and the "
+               "regenerated text carry the clamp (`min p isize::MAX`), so the float theorems need `digits <= min(p, isize::MAX) + 1`: "
+               "beyond `digits <= p + 1` that is 'at most 2^63 digits', true of every significand in a 64-bit address space; "
+               "driven at the extremes by f.cmp / f.norm (no finding left)"]
 
 THEOREMS = ["Dashu.Props.C05." + n for n in [
     "ubig_cmp", "ibig_cmp", "canonical_form_unique", "eq_iff_value_eq", "cmp_equal_iff_eq", "hash_follows_value", "cmp_swap",
@@ -853,10 +878,15 @@ THEOREMS = ["Dashu.Props.C05." + n for n in [
     "ratio_cmp_equal_iff_eq", "history_canonical", "history_values", "history_eq_cmp_hash",
     "float_results_fit", "float_cmp_of_results", "float_spare_digit_occurs", "rbig_hash_follows_value", "float_results_canonical",
     "float_results_fit_more", "float_sources_fit", "float_cmp_equal_iff_eq", "float_history", "float_history_cmp",
+    "float_history_cmp_small", "float_cmp_of_small_precision",
     "float_normalize_regenerated", "float_new_is_normalize"]]
 THEOREMS += ["Dashu.Props.GenFloatNorm." + n for n in [
     "normalize_is_model", "normalize_is_repr_new", "repr_new_eq_normalize", "normalize_unwraps_are_some", "removeRepr_eq_removeAll"]]
 THEOREMS += ["Dashu.Props.C05Link.rational_history_eq_cmp_hash"]
+THEOREMS += ["Dashu.Props.C05." + n for n in ["float_spec_is_value_order", "float_spec_infinities_at_ends", "float_cmp_is_value_order",
+                                               "float_cmp_trans", "float_cmp_swap", "float_history_value_order",
+                                               "float_spec_is_extended_value_order", "float_spec_trans",
+                                               "float_cmp_is_extended_value_order"]]
 THEOREMS += ["Dashu.Props.C05.from_parts_const_normalized", "Dashu.Props.C05.constStrip_eq_removeAll",
              "Dashu.Props.C05.from_parts_const_fits", "Dashu.Props.C05.constDigits_spec"]
 
@@ -875,8 +905,8 @@ LEVEL_TEXT = ("Machine-checked Lean 4 theorems that (integers, every word size a
               "clones) is canonical, so ==/cmp/hash follow the value whichever operations produced the operands. Round 5: Repr::normalize is "
               "regenerated from the source on every run and proved equal to both hand models for every base and input (its remove arm is "
               "C12's mirrored algorithm); for rationals ==/cmp/Hash of any two registers of any finite program follow the values (link to "
-              "C04's history invariant). Exponent/precision arithmetic is unbounded in the theorems: the real comparison overflows isize "
-              "within max(precision, digits) of isize::MAX or for precision >= 2^63 (known finding, patch proposed).")
+              "C04's history invariant). Exponent/precision arithmetic is unbounded in the theorems; the comparison's clamp of the precisions "
+              "to isize::MAX (fix ee43486 of the isize overflow found in round 5) is part of the regenerated text, the model and the hypothesis.")
 LEVEL_NOTE = ("Trusted: Lean kernel; axioms propext/Classical.choice/Quot.sound; correspondence harness + generators (sampling) for the "
               "tie model<->code and for the claim that *every* producer yields canonical form (proved here only for the producers listed "
               "in refined_kernels); the digit-estimate hypothesis. Repaired during this work: floats leaving with_base/convert_base "
